@@ -91,7 +91,7 @@ def run_case(case):
 def run_with_queries(case, qs):
     """like twin.run_points but calls get_last_point qs[i] times after round i"""
     import copy
-    P = C.plain_part_class(case["part"])
+    P = C.plain_part_class(case["part"], case.get("part_binding"))
     out = {"points": [], "last": None, "crash": None}
     seq = C.open_rewards(case["reward"]["family"], case["reward"]["seed"], max(case["T"], 1))
     try:
